@@ -194,6 +194,17 @@ Step ==
                  => PrintT(<<"MISMATCH", ToJson([kind |-> "illformed", prop |-> "C09", line |-> l + 1,
                                                  op |-> "new", p |-> <<r.L, r.C>>, pr |-> FALSE, src |-> "api",
                                                  bad |-> <<"new">>, info |-> <<>>])>>)
+            \* the power-on state: tab stops every 8th column (C18), G0 Latin-1 / G1 DEC graphics / SI (C20)
+            /\ LET p0 == NormState(r.post, NoScreen)
+                   f0 == Fresh(r.C, r.L)
+                   rep(id, bad) == PrintT(<<"MISMATCH", ToJson([kind |-> "mismatch", prop |-> id, line |-> l + 1, op |-> "new",
+                                                                p |-> <<r.L, r.C>>, pr |-> FALSE, src |-> "api",
+                                                                bad |-> SetToSeq(bad), info |-> [tabs |-> SetToSeq(p0.tabs)]])>>)
+               IN /\ (On("C18") /\ r.scr /\ Shape(p0) /\ p0.tabs # f0.tabs) => rep("C18", {"tabs"})
+                  /\ (On("C20") /\ r.scr /\ Shape(p0) /\ DiffFields(p0, f0, {"cs", "g0", "g1"}) # {})
+                        => rep("C20", DiffFields(p0, f0, {"cs", "g0", "g1"}))
+                  /\ (On("ALL") /\ r.scr /\ Shape(p0) /\ DiffFields(p0, f0, AllFields) # {})
+                        => rep("ALL", DiffFields(p0, f0, AllFields))
        [] r.k = "op" -> JudgeOp(r, l + 1) /\ UNCHANGED grp
        [] r.k = "feed" -> JudgeFeed(r, l + 1) /\ UNCHANGED grp
        [] r.k = "end" -> JudgeEnd(r, l + 1)
